@@ -646,6 +646,11 @@ func c20runCase(env *c20env, c c20case) (*c20run, [][2]string) {
 			viol = append(viol, [2]string{name + ": a command was never sent to any node", fmt.Sprintf("member %d (%s): result %s", i, run.mem[i].tag, got)})
 			continue
 		}
+		if strings.HasPrefix(got, "rerr:MOVED ") || strings.HasPrefix(got, "rerr:ASK ") {
+			viol = append(viol, [2]string{name + ": a redirect (-MOVED/-ASK) is returned to the caller instead of being followed", fmt.Sprintf("member %d (%s %s): result %s (MaxMovedRedirections is unlimited; a redirected MULTI..EXEC block has to be re-sent whole)", i, c.Items[i], run.mem[i].tag, got)})
+		} else if run.mem[i].retryable && !run.mem[i].inBlock && got != "str:"+run.mem[i].tag {
+			viol = append(viol, [2]string{name + ": a retryable command outside a transaction ends with a retryable failure although retries are unlimited", fmt.Sprintf("member %d (%s %s): result %s", i, c.Items[i], run.mem[i].tag, got)})
+		}
 		if got != run.lastReply[i] {
 			viol = append(viol, [2]string{name + ": results[i] is not the reply the cluster gave to command i", fmt.Sprintf("member %d (%s %s): result %s, the fake cluster's last reply to it was %s", i, c.Items[i], run.mem[i].tag, got, run.lastReply[i])})
 		}
@@ -923,6 +928,7 @@ func TestVerif_C20(t *testing.T) {
 		r.Assume("a transport failure of one command also fails all later commands of the same pipeline call (broken connection)")
 		r.Assume("results[i] must equal the LAST reply the fake cluster produced for command i (the client may not return a stale reply of an earlier attempt)")
 		r.Assume("batches mixing slot-less commands with more than one slot are outside the contract (DoMulti panics with a documented message) and are not enumerated")
+		r.Assume("redirects are always followed (ClusterOption.MaxMovedRedirections = 0) and retryable commands are retried without limit (RetryDelayFn = 0), so with at most 2 scripted faults no -MOVED/-ASK may surface and a read outside a transaction must end with its value")
 		r.Assume("a redirected MULTI..EXEC block may be re-sent to the target of any of its redirected members")
 		r.Assume("retry delay is 0 (custom RetryDelayFn) so that no wall-clock waiting happens; the topology is static and the client's delayed background refresh (lazyRefresh) is suppressed by occupying its single-flight slot; what the client learns from -MOVED is reset between cases")
 	})
